@@ -350,6 +350,13 @@ func init() {
 	reg("sync/atomic.LoadInt64", "atomic load", atomicLoad)
 	reg("sync/atomic.LoadInt32", "atomic load", atomicLoad)
 
+	// ---- context: WithValue builds the real valueCtx (its Value method is then executed as code) ----
+	reg("context.WithValue", "builds context.valueCtx{parent,key,val} without the reflect-based key check", func(in *Interp, fn *ssa.Function, a []Value) Value {
+		named := fn.Pkg.Type("valueCtx").Type()
+		o := in.newObject(named, &StructV{f: []Value{a[0], a[1], a[2]}}, "valueCtx")
+		return Iface{t: types.NewPointer(named), v: Ptr{obj: o}}
+	})
+
 	// ---- time: nondeterminism oracle ----
 	reg("time.Now", "oracle: opaque instant", func(in *Interp, fn *ssa.Function, a []Value) Value {
 		in.ndSrc++
